@@ -109,6 +109,8 @@ type TunPlan struct {
 	Segs [][2]int
 	// WSFrames: split each ws message into that many frames (continuation frames)
 	WSFrames int
+	// NTLM credentials for configurations whose gateway endpoint needs HTTP authentication
+	NTLMUser, NTLMPass string
 }
 
 type Tun struct {
@@ -200,6 +202,7 @@ func StartTunnels(c *Ctx, plans []*TunPlan) []*Tun {
 		t := &Tun{Plan: p}
 		t.Client = c.W.NewTunClient(p.Name, p.Transport, p.From, p.ConnID)
 		t.Client.XFF = p.XFF
+		t.Client.NTLMUser, t.Client.NTLMPass = p.NTLMUser, p.NTLMPass
 		for _, h := range []string{p.AllowedHost, p.DeniedHost} {
 			if h != "" && c.W.Host[h] == nil {
 				t.Hosts = append(t.Hosts, c.W.AddHost(h, p.HostScript))
